@@ -74,6 +74,13 @@ def _(c):
         return z3.And(z3.Length(r) == len(exp), *[r[i] == e for i, e in enumerate(exp)])
     c.ensures('plain-name-first-then-one-per-format', post)
 
+    def model(it, bound, node):
+        """call-site view: the postcondition pins every element, so callers get the list itself (and can iterate it
+        without an invariant); exactly the content of clause plain-name-first-then-one-per-format"""
+        p = it.ctx.force(bound['path'])
+        return it.lib.new_list(it, [p] + [VStr(z3.Concat(p.t, STR('.' + x))) for x in SUFFIXES])
+    c.model = model
+
     def inverse(s):
         """the pair the rename logic relies on: suffix(p + '.' + f) = f for a name p whose last
         component is not dots only, and suffix('Manifest') is None"""
